@@ -1,6 +1,7 @@
 import ALV.Common.Json
 import ALV.Model.C16
 import ALV.Model.C16Gen
+import ALV.Model.C16X
 import ALV.Spec.C16
 namespace ALV.Driver.C16
 open ALV ALV.J ALV.C16
@@ -60,6 +61,106 @@ def runStreamix {α : Type} [Add α] (getItem : Json → Except String α) (toJ 
     ("n", natToJson sr.1.n),
     ("length", natToJson (mixLength sr.1.evs))]
 
+/-! ### the machine with exceptions (entry `streamix_x`) -/
+
+/-- Python values of the mixed regime: numbers, tuples of ints (`+` = concatenation), `None` -/
+inductive XVal where
+  | num (r : Rat)
+  | seq (l : List Int)
+  | none
+
+/-- `a + b` of Python on these values: numbers add, tuples concatenate, anything else is a TypeError -/
+instance : XAdd String XVal where
+  xadd
+    | .num a, .num b => .ok (.num (a + b))
+    | .seq a, .seq b => .ok (.seq (a ++ b))
+    | _, _ => .error "TypeError"
+
+def xvalJson : XVal → Json
+  | .num r => ratToJson r
+  | .seq l => ints l
+  | .none => Json.null
+
+def getXVal : Json → Except String XVal
+  | Json.null => pure .none
+  | Json.arr l => do pure (.seq (← l.mapM getInt))
+  | j => do pure (.num (← getRat j))
+
+/-- an item of an event: a value, or `{"raise": kind}` — `next(snd)` raises there -/
+def getXItem (j : Json) : Except String (Except String XVal) :=
+  match optField j "raise" with
+  | some k => do pure (.error (← getStr k))
+  | none => do pure (.ok (← getXVal j))
+
+def xobsJson : XObs String XVal → Json
+  | .ok => Json.str "ok"
+  | .valueError => Json.mkObj [("err", Json.str "ValueError")]
+  | .out v k => Json.mkObj [("out", xvalJson v), ("started", natToJson k)]
+  | .stop => Json.str "stop"
+  | .raised e => Json.mkObj [("err", Json.str e)]
+
+/-- everything a mixer still yields, as the items of an event of ANOTHER mixer: values until the
+    end, or until the `next` that raises (then the inner generator is finished) -/
+def drainX (zero : XVal) : Nat → PState (Except String XVal) → List (Except String XVal)
+  | 0, _ => []
+  | fuel + 1, s =>
+    match xnext zero s with
+    | (s', .out v _) => .ok v :: drainX zero fuel s'
+    | (_, .raised e) => [.error e]
+    | _ => []
+
+mutual
+/-- operations; the data of an `add` may be `{"mix": {keep, zero, ops}}`: a closed inner mixer
+    (keep off, never touched again) whose remaining output is the event -/
+partial def getXOp (j : Json) : Except String (XOp String XVal) := do
+  let op ← getStr (← field j "op")
+  match op with
+  | "add" =>
+    let d ← getRat (← field j "delta")
+    match optField j "mix" with
+    | some m =>
+      let (zero, s, fuel) ← innerX m
+      pure (.add d (drainX zero fuel s))
+    | none =>
+      let xs ← getList getXItem (← field j "data")
+      pure (.add d xs)
+  | "addfail" => pure (.addFail (← getRat (← field j "delta")) (← getStr (← field j "err")))
+  | "next" => pure .next
+  | "keep" => pure (.setKeep (← getBool (← field j "v")))
+  | _ => throw s!"C16: unknown op {op}"
+
+/-- the inner mixer after its own history, and a bound on what it still yields -/
+partial def innerX (m : Json) : Except String (XVal × PState (Except String XVal) × Nat) := do
+  let keep ← getBool (fieldD m "keep" (Json.bool false))
+  let zero ← getXVal (fieldD m "zero" (Json.int 0))
+  let ops ← getList getXOp (← field m "ops")
+  let r := xrun zero (PState.init keep) ops
+  if r.1.keep then throw "C16: an inner mixer must have keep off"
+  let sr := srun (Except.ok zero : Except String XVal) (SState.init keep) (erase ops)
+  pure (zero, r.1, mixLength sr.1.evs + 2)
+end
+
+/-- a history with failing operations on one Streamix: the machine with exceptions step by step
+    (observation, container sizes, the frame's count while suspended), and what the specification
+    shows on the history without the failed adds, read through `xview` -/
+def runStreamixX (j : Json) : Except String Json := do
+  let keep ← getBool (fieldD j "keep" (Json.bool false))
+  let zero ← getXVal (fieldD j "zero" (Json.int 0))
+  let ops ← getList getXOp (← field j "ops")
+  let tr := xtrace zero (PState.init keep) ops
+  let m := tr.map fun (st, o) =>
+    let cnt := if st.suspended && !st.ended then ratToJson st.count else Json.null
+    Json.arr [xobsJson o, natToJson st.notPlaying.length, natToJson st.playing.length, cnt]
+  let sr := srun (Except.ok zero : Except String XVal) (SState.init keep) (erase ops)
+  pure <| Json.mkObj [
+    ("model", Json.arr m),
+    ("spec", arr xobsJson (xview ops sr.2)),
+    ("starts", nats (sr.1.evs.map (·.start))),
+    ("T", ratToJson sr.1.T),
+    ("accepted", ratToJson (xAcceptedTime ops)),
+    ("n", natToJson sr.1.n),
+    ("length", natToJson (mixLength sr.1.evs))]
+
 def handle (entry : String) (j : Json) : Except String Json := do
   match entry with
   | "streamix" =>
@@ -68,6 +169,10 @@ def handle (entry : String) (j : Json) : Except String Json := do
   | "streamix_seq" =>          -- items are one-element tuples, zero a tuple, `+` is concatenation
     let zero ← getList getInt (fieldD j "zero" (Json.arr []))
     runStreamix (fun x => do pure (⟨[← getInt x]⟩ : Seq)) (fun (v : Seq) => ints v.items) ⟨zero⟩ j
+  | "streamix_x" => runStreamixX j
+  | "streamix_sys" =>          -- several mixers (their sources are independent copies): one payload each
+    let ms ← getList runStreamixX (← field j "mixers")
+    pure <| Json.mkObj [("mixers", Json.arr ms)]
   | "control" =>
     let init ← field j "init"
     let ops ← getList getCOp (← field j "ops")
